@@ -211,8 +211,13 @@ func dischargeAll(cfg *solveCfg, jr *JobResult, sem chan struct{}) {
 		return
 	}
 	var wg sync.WaitGroup
+	only := os.Getenv("GOVC_ONLY")
 	for _, o := range jr.Obls {
 		o := o
+		if only != "" && !strings.Contains(o.ID, only) {
+			o.Result = Result{Status: "unsat", Solver: "skipped(GOVC_ONLY)"}
+			continue
+		}
 		if o.Kind != "vacuity" && (o.Goal.IsTrue() || o.Cond.IsFalse()) {
 			o.Result = Result{Status: "unsat", Solver: "simplifier"}
 			continue
@@ -230,7 +235,11 @@ func dischargeAll(cfg *solveCfg, jr *JobResult, sem chan struct{}) {
 			dischargeParts(cfg, e, o, base, extra, sem, &wg)
 			continue
 		}
-		asserts := append(base, o.Cond, e.tb.Not(o.Goal))
+		goalS := o.Goal
+		if o.Kind != "vacuity" {
+			base, goalS, extra, _ = e.specialize(base, o.Cond, o.Goal, extra, nil)
+		}
+		asserts := append(base, o.Cond, e.tb.Not(goalS))
 		quant := hasQuantifier(asserts)
 		logic := "ALL"
 		// quantifier-free weakening of the hypotheses: tried first, because
@@ -414,6 +423,56 @@ func dischargeAll(cfg *solveCfg, jr *JobResult, sem chan struct{}) {
 }
 
 // solveLIA runs the integer abstraction; only "unsat" is meaningful.
+// specialize simplifies the hypotheses and the goal under the literals the
+// path condition fixes: an assumption guarded by the reach condition of a
+// different path becomes true and is dropped. Equivalence-preserving under
+// cond, which stays among the assertions.
+func (e *Engine) specialize(base []*Term, cond, goal *Term, extra, extraW []*Term) ([]*Term, *Term, []*Term, []*Term) {
+	if os.Getenv("GOVC_NOSPECIALIZE") != "" {
+		return base, goal, extra, extraW
+	}
+	if e.specMemo == nil {
+		e.specMemo = map[[2]int]*specEntry{}
+	}
+	key := [2]int{cond.id, len(base)}
+	se := e.specMemo[key]
+	if se == nil {
+		se = &specEntry{lits: map[*Term]*Term{}, cache: map[int]*Term{}}
+		e.literalsOf(cond, true, se.lits)
+		if len(se.lits) > 0 {
+			for _, a := range base {
+				a2 := e.tb.SubstC(a, se.lits, se.cache)
+				if a2.IsTrue() {
+					continue
+				}
+				se.base = append(se.base, a2)
+			}
+		}
+		e.specMemo[key] = se
+	}
+	if len(se.lits) == 0 {
+		return base, goal, extra, extraW
+	}
+	sub := func(ts []*Term) []*Term {
+		var out []*Term
+		for _, a := range ts {
+			a2 := e.tb.SubstC(a, se.lits, se.cache)
+			if a2.IsTrue() {
+				continue
+			}
+			out = append(out, a2)
+		}
+		return out
+	}
+	return se.base, e.tb.SubstC(goal, se.lits, se.cache), sub(extra), sub(extraW)
+}
+
+type specEntry struct {
+	lits  map[*Term]*Term
+	cache map[int]*Term
+	base  []*Term
+}
+
 func solveLIA(cfg *solveCfg, id, script string) Result {
 	file := filepath.Join(cfg.tmp, sanitizeFile(id)+".smt2")
 	if err := os.WriteFile(file, []byte(script), 0o644); err != nil {
@@ -427,7 +486,7 @@ func solveLIA(cfg *solveCfg, id, script string) Result {
 		if s.name == "z3" {
 			continue
 		}
-		st, raw, secs := runSolver(context.Background(), s, file, cfg.fastSec)
+		st, raw, secs := runSolver(context.Background(), s, file, cfg.fastSec*4)
 		res.Attempt = append(res.Attempt, fmt.Sprintf("%s:lia:%s:%.2fs", s.name, st, secs))
 		res.Secs += secs
 		if st == "unsat" {
@@ -462,7 +521,15 @@ func dischargeParts(cfg *solveCfg, e *Engine, o *Obligation, base, extra []*Term
 	}
 	for pi, p := range o.Parts {
 		for si, sp := range splits {
-			asserts := append(append([]*Term{}, base...), p.Cond, e.tb.Not(p.Goal))
+			cond := p.Cond
+			if sp != nil {
+				if sp.IsFalse() {
+					continue
+				}
+				cond = e.tb.And(p.Cond, sp)
+			}
+			baseP, goalP, extra, extraW := e.specialize(base, cond, p.Goal, extra, extraW)
+			asserts := append(append([]*Term{}, baseP...), p.Cond, e.tb.Not(goalP))
 			if sp != nil {
 				asserts = append(asserts, sp)
 			}
